@@ -184,6 +184,58 @@ func Check(s string, r *mon.R) {
 		}
 		off += len(p) + 1
 	}
+	// whether or not parsing fails, the statements Parse reports are, in order
+	// and number, the statements its pieces yield on their own
+	{
+		var fromPieces []string
+		off := 0
+		for pi, p := range parts {
+			if hasTokens(pieceToks[pi]) {
+				ps, _, o := mon.Parse(p)
+				if o.Anomalous() {
+					r.Inconclusive("foreign_parse_anomaly")
+					return
+				}
+				for _, st := range ps {
+					fromPieces = append(fromPieces, pqlref.Dump(st, 0, false))
+				}
+			}
+			off += len(p) + 1
+		}
+		off = 0
+		var whole []string
+		si := 0
+		// statement i of the whole belongs to the i-th statement-yielding piece
+		offsets := []int{}
+		for pi, p := range parts {
+			if hasTokens(pieceToks[pi]) {
+				ps, _, _ := mon.Parse(p)
+				for range ps {
+					offsets = append(offsets, off)
+				}
+			}
+			off += len(p) + 1
+		}
+		for _, st := range stmts {
+			o := 0
+			if si < len(offsets) {
+				o = offsets[si]
+			}
+			_ = o
+			whole = append(whole, pqlref.Dump(st, 0, false))
+			si++
+		}
+		if len(whole) != len(fromPieces) {
+			r.Violation("", "Parse(%q) reports %d statement(s) (error: %v), its %d pieces parsed on their own yield %d", s, len(whole), perr, len(parts), len(fromPieces))
+			return
+		}
+		for i := range whole {
+			if whole[i] != fromPieces[i] {
+				r.Violation("", "statement %d of %q parsed in context differs from its piece parsed alone (parse error: %v):\n in context: %s\n alone:      %s", i, s, perr, whole[i], fromPieces[i])
+				return
+			}
+		}
+	}
 	if (perr == nil) != allOK {
 		r.Violation("", "Parse(%q) error=%v but every-piece-parses=%v (pieces %q)", s, perr, allOK, parts)
 		return
